@@ -1101,6 +1101,18 @@ def op_split(cx):
             cx.fail("face_not_original", "a face of a split component is not a face of the source (%s)" % how, None, opt)
             return _finish(cx, True)
         order_src = np.asarray(src)
+        # repeated faces (same three vertices, any corner order) cannot be told apart when no
+        # colour / uv carries their id: give every copy the id of the first one, so that the
+        # order claim is judged between distinguishable faces only
+        first = {}
+        for fi, tri in enumerate(np.sort(np.asarray(T.F), axis=1).tolist()):
+            first.setdefault(tuple(tri), fi)
+        canon = np.array([first[tuple(sorted(np.asarray(T.F)[int(i)].tolist()))] for i in order_src], dtype=np.int64) if len(order_src) else order_src
+        if len(canon) and not np.array_equal(canon, order_src):
+            cx.run.count("split_order_duplicate_faces_canonicalised")
+            # duplicates may now repeat an id: drop consecutive repeats before the strict test
+            keep = np.r_[True, np.diff(canon) != 0]
+            order_src = canon[keep]
         if only_wt and len(order_src) > 1:
             # only_watertight=True runs fill_holes (even with repair=False, util.submesh), which
             # APPENDS new faces; their inferred ids are not survivors' ids, so the order claim
